@@ -490,6 +490,28 @@ func byFieldName(v interface{}, ss ast.SelectionSet) interface{} {
 		out := map[string]interface{}{}
 		used := map[string]bool{}
 		seen := map[string]int{}
+		// selections that answer under one response key are one field: their sub-selections merge
+		merged := map[string]ast.SelectionSet{}
+		var collect func(ss ast.SelectionSet)
+		collect = func(ss ast.SelectionSet) {
+			for _, s := range ss {
+				switch f := s.(type) {
+				case *ast.Field:
+					key := f.Alias
+					if key == "" {
+						key = f.Name
+					}
+					merged[key] = append(merged[key], f.SelectionSet...)
+				case *ast.InlineFragment:
+					collect(f.SelectionSet)
+				case *ast.FragmentSpread:
+					if f.Definition != nil {
+						collect(f.Definition.SelectionSet)
+					}
+				}
+			}
+		}
+		collect(ss)
 		var walk func(ss ast.SelectionSet)
 		walk = func(ss ast.SelectionSet) {
 			for _, s := range ss {
@@ -512,7 +534,7 @@ func byFieldName(v interface{}, ss ast.SelectionSet) interface{} {
 					if seen[f.Name] > 1 {
 						nk = fmt.Sprintf("%s#%d", f.Name, seen[f.Name])
 					}
-					out[nk] = byFieldName(val, f.SelectionSet)
+					out[nk] = byFieldName(val, merged[key])
 				case *ast.InlineFragment:
 					walk(f.SelectionSet)
 				case *ast.FragmentSpread:
